@@ -550,8 +550,8 @@ pub fn gen_c14(rng: &mut Rng) -> Value {
                 st["flush_after"] = json!([0]);
             }
             4 => {
-                // rejected by the size check (declared size above the mmap threshold so that the plain-file path is used)
-                o["size"] = json!(len + (1 << 20) + 1);
+                // rejected by the size check, on either side of the mmap threshold
+                o["size"] = json!(if rng.chance(1, 2) { len + (1 << 20) + 1 } else { len + 1 + rng.below(9) });
             }
             _ => {
                 o["sri"] = json!({"val":vi,"algo":"sha256","wrong":true});
